@@ -311,4 +311,202 @@ theorem C04_archive_order_irrelevant (t : Tree) (ms ms' : List Member) (hperm : 
     exact ⟨m, hperm.mem_iff.mp hm, h⟩
   exact (C04_archive_partial t ms hv ha hd hne).trans (C04_archive_partial t ms' hv ha' hd' hne).symm
 
+/-! ## Embedded -/
+
+theorem collectMap_eq {κ β} [DecidableEq κ] (l : List (κ × β)) (k : κ) :
+    collectMap l k = (l.reverse.find? (fun kv => decide (kv.1 = k))).map (·.2) := by
+  unfold collectMap
+  rw [List.foldl_eq_foldr_reverse]
+  generalize l.reverse = r
+  induction r with
+  | nil => rfl
+  | cons kv r ih =>
+    simp only [List.foldr_cons, upd, List.find?_cons]
+    by_cases h : kv.1 = k
+    · simp [h]
+    · have h' : ¬ k = kv.1 := fun e => h e.symm
+      simp [h, h', ih]
+
+theorem find_map_key {γ κ β} [DecidableEq κ] (ks : List γ) (g : γ → κ) (h : κ → β) (p : κ) :
+    ((ks.map fun q => (g q, h (g q))).find? (fun kv => decide (kv.1 = p))).map (·.2) =
+      if p ∈ ks.map g then some (h p) else none := by
+  induction ks with
+  | nil => simp
+  | cons q qs ih =>
+    by_cases hq : g q = p
+    · rw [List.map_cons, List.find?_cons_of_pos (by simpa using hq)]
+      simp [hq]
+    · have hq' : ¬ p = g q := fun e => hq e.symm
+      rw [List.map_cons, List.find?_cons_of_neg (by simpa using hq), ih]
+      simp only [List.map_cons, List.mem_cons, hq', false_or]
+
+/-- `Embedded::from` over the tables `embed!` generates for a valid tree shows exactly that tree
+(listings even in the same order). -/
+theorem C04_embedded (t : Tree) (hv : ValidTree t) :
+    ViewEq (viewOfIdx (embeddedFrom (embedTables t))) (sem t) := by
+  have hfiles : ∀ k, (embeddedFrom (embedTables t)).files k =
+      ((treeKVs t).find? (fun kv => decide (kv.1 = k))).map (·.2) := by
+    intro k
+    show collectMap (treeKVs t) k = _
+    rw [collectMap_eq, lookup_of_perm t (validTree_keys t hv) _ (List.reverse_perm _)]
+  have hdirs : ∀ p, (embeddedFrom (embedTables t)).dirs p =
+      if isDirId t p then some ((regsOfTree t).filterMap (childEntry p)) else none := by
+    intro p
+    show collectMap (([] :: t.dirs).map fun q => (dirId q, (regsOfTree t).filterMap (childEntry (dirId q)))) p = _
+    rw [collectMap_eq, ← List.map_reverse,
+      find_map_key _ dirId (fun i => (regsOfTree t).filterMap (childEntry i)) p]
+    have : (p ∈ ([] :: t.dirs).reverse.map dirId) ↔ isDirId t p = true := by
+      simp only [List.mem_map, List.mem_reverse, List.mem_cons, isDirId, Bool.or_eq_true, decide_eq_true_eq]
+      constructor
+      · rintro ⟨q, hq | hq, rfl⟩
+        · left; rw [hq]; rfl
+        · right; exact ⟨q, hq, rfl⟩
+      · rintro (h | ⟨q, hq, rfl⟩)
+        · exact ⟨[], Or.inl rfl, by rw [h]; rfl⟩
+        · exact ⟨q, Or.inr hq, rfl⟩
+    by_cases hd : isDirId t p = true
+    · rw [if_pos (this.mpr hd), if_pos hd]
+    · rw [if_neg (fun h => hd (this.mp h)), if_neg hd]
+  constructor
+  · intro id ext
+    rw [sem_read_eq]
+    show (match (embeddedFrom (embedTables t)).files (id, ext) with | some b => Res.ok b | none => Res.err Err.notFound) = _
+    rw [hfiles]
+  · intro p
+    simp only [viewOfIdx, hdirs, sem]
+    by_cases h : isDirId t p
+    · simp only [h, if_true, ResPerm]; exact List.Perm.refl _
+    · simp [h, ResPerm]
+  · intro e
+    cases e with
+    | file id ext => rw [sem_exist_file_eq]; simp only [viewOfIdx, hfiles]
+    | dir p =>
+      simp only [viewOfIdx, hdirs, sem]
+      by_cases h : isDirId t p <;> simp [h]
+
+example : ValidTree witnessTree := by decide
+
+/-! ## every listed entry is readable under the id it was listed with -/
+
+/-- What "readable" means for a listed entry: a file can be read and exists, a directory can be
+listed and exists. -/
+def Readable (v : View) : Entry → Prop
+  | .file id ext => (v.read id ext).isOk = true ∧ v.exist (.file id ext) = true
+  | .dir id => (v.readDir id).isOk = true ∧ v.exist (.dir id) = true
+
+theorem sem_listed_readable (t : Tree) (p : Id) (es : List Entry) (h : (sem t).readDir p = .ok es) :
+    ∀ e ∈ es, Readable (sem t) e := by
+  intro e he
+  simp only [sem] at h
+  by_cases hp : isDirId t p
+  · simp only [hp, if_true, Res.ok.injEq] at h
+    subst h
+    obtain ⟨r, hr, hre⟩ := List.mem_filterMap.mp he
+    simp only [childEntry] at hre
+    by_cases hpar : r.parent = p
+    · simp only [hpar, if_true, Option.some.injEq] at hre
+      subst hre
+      simp only [regsOfTree, List.mem_append, List.mem_map] at hr
+      rcases hr with ⟨f, hf, rfl⟩ | ⟨q, hq, rfl⟩
+      · have hany : t.files.any (fun g => decide (fileId g = fileId f ∧ g.ext = f.ext)) = true :=
+          List.any_eq_true.mpr ⟨f, hf, by simp⟩
+        simp only [Readable, Reg.entry, fileReg, sem]
+        refine ⟨?_, hany⟩
+        cases hfind : t.files.find? (fun g => decide (fileId g = fileId f ∧ g.ext = f.ext)) with
+        | none => rw [any_eq_find_isSome, hfind] at hany; simp at hany
+        | some g => rfl
+      · have hd : isDirId t (dirId q) = true := by
+          simp only [isDirId, Bool.or_eq_true, decide_eq_true_eq]
+          exact Or.inr (List.mem_map.mpr ⟨q, hq, rfl⟩)
+        simp [Readable, Reg.entry, dirReg, sem, hd, Res.isOk]
+    · simp [hpar] at hre
+  · simp [hp] at h
+
+/-- For every source view that shows the tree (each of the theorems above provides one), every
+entry produced by `read_dir` is readable / listable under the id it was listed with. -/
+theorem C04_listed_is_readable (v : View) (t : Tree) (hv : ViewEq v (sem t)) (p : Id) (es : List Entry)
+    (h : v.readDir p = .ok es) : ∀ e ∈ es, Readable v e := by
+  intro e he
+  have hp := hv.readDir p
+  rw [h] at hp
+  cases hs : (sem t).readDir p with
+  | err x => simp [hs, ResPerm] at hp
+  | ok es' =>
+    rw [hs] at hp
+    have he' : e ∈ es' := (show es.Perm es' from hp).mem_iff.mp he
+    have := sem_listed_readable t p es' hs e he'
+    cases e with
+    | file id ext => simpa [Readable, hv.read, hv.exist] using this
+    | dir id =>
+      simp only [Readable, hv.exist] at this ⊢
+      refine ⟨?_, this.2⟩
+      have hd := hv.readDir id
+      cases hvd : v.readDir id with
+      | ok _ => rfl
+      | err x =>
+        rw [hvd] at hd
+        cases hsd : (sem t).readDir id with
+        | ok _ => simp [hsd, ResPerm] at hd
+        | err y => simp [hsd, Res.isOk] at this
+
+/-! ## readers do not disturb each other -/
+
+inductive Probe
+  | read (id : Id) (ext : Name)
+  | readDir (id : Id)
+  | exist (e : Entry)
+
+inductive Answer
+  | bytes (r : Res Bytes)
+  | listing (r : Res (List Entry))
+  | bool (b : Bool)
+
+def answer (v : View) : Probe → Answer
+  | .read id ext => .bytes (v.read id ext)
+  | .readDir id => .listing (v.readDir id)
+  | .exist e => .bool (v.exist e)
+
+/-- Several reader threads over one index: a step answers the thread's next probe from the shared
+index (the code only takes `&self`: no step writes to it). -/
+structure Readers where
+  idx : Idx
+  progs : Nat → List Probe
+  done : Nat → List Answer
+
+def Readers.step (s : Readers) (tid : Nat) : Readers :=
+  match s.progs tid with
+  | [] => s
+  | p :: ps => { s with progs := upd s.progs tid ps, done := upd s.done tid (s.done tid ++ [answer (viewOfIdx s.idx) p]) }
+
+def Readers.run (s : Readers) (σ : List Nat) : Readers := σ.foldl Readers.step s
+
+/-- Whatever the schedule and the number of reader threads, the index is unchanged and every
+thread has received exactly the answers a lone reader would get, in program order. -/
+theorem C04_reads_commute (s₀ : Readers) (σ : List Nat) :
+    (s₀.run σ).idx = s₀.idx ∧
+    ∀ t, (s₀.run σ).done t ++ ((s₀.run σ).progs t).map (answer (viewOfIdx s₀.idx)) =
+         s₀.done t ++ (s₀.progs t).map (answer (viewOfIdx s₀.idx)) := by
+  induction σ generalizing s₀ with
+  | nil => exact ⟨rfl, fun _ => rfl⟩
+  | cons tid σ ih =>
+    have hstep : (s₀.step tid).idx = s₀.idx ∧
+        ∀ t, (s₀.step tid).done t ++ ((s₀.step tid).progs t).map (answer (viewOfIdx s₀.idx)) =
+             s₀.done t ++ (s₀.progs t).map (answer (viewOfIdx s₀.idx)) := by
+      unfold Readers.step
+      cases hp : s₀.progs tid with
+      | nil => exact ⟨rfl, fun _ => rfl⟩
+      | cons p ps =>
+        refine ⟨rfl, fun t => ?_⟩
+        by_cases ht : t = tid
+        · subst ht; simp [upd, hp]
+        · simp [upd, ht]
+    obtain ⟨h1, h2⟩ := ih (s₀.step tid)
+    refine ⟨h1.trans hstep.1, fun t => ?_⟩
+    have := h2 t
+    rw [hstep.1] at this
+    exact this.trans (hstep.2 t)
+
+example : ((Readers.mk (index witnessArchive) (fun _ => [.exist (.dir ['d', '.', 'e']), .read ['d', '.', 'e', '.', 'f'] ['x']]) (fun _ => [])).run
+    [0, 1, 1, 0]).progs 0 = [] := by decide
+
 end AmVerif.Props.C04
